@@ -146,15 +146,26 @@ static std::string run_history(const Args& a, long i) {
     const int max_faces = (int)a.geti("max_faces", 640);
     // ---- start mesh and edge-length band ---------------------------------------------------------
     gen::TriMesh m; std::shared_ptr<epithelial_cell> c; auto ct = gen::default_cell_type(4, 0);
-    double scale = 1, lmin = 0, lmax = 0, ratio = 3; bool have = false, lens = false;
+    double scale = 1, lmin = 0, lmax = 0, ratio = 3; bool have = false, lens = false, fan = false;
     for (int attempt = 0; attempt < 30 && !have; attempt++) {
         if (g.coin(0.06)) {
             // 'lens6': 6 nodes, 8 faces; the needle ABC / ABD on the long edge AB has opposite nodes C, D that are already joined by an edge
             // (3-cycles A-C-D and B-C-D are not faces), A and B have four faces each: the configuration in which an edge swap must be refused
             double w = g.uni(0.05, 0.15), dz = g.uni(0.02, 0.08), cap = g.uni(0.4, 0.8), cx = g.uni(0.3, 0.7);
             m = gen::TriMesh(); m.name = "lens6"; m.P = {{-1, 0, 0}, {1, 0, 0}, {0, w, -dz}, {0, -w, -dz}, {-cx, 0, -cap}, {cx, 0, -cap}};
-            m.T = {{0, 1, 2}, {0, 3, 1}, {0, 2, 4}, {2, 3, 4}, {3, 0, 4}, {1, 5, 2}, {2, 5, 3}, {3, 5, 1}}; lens = true;
-        } else { lens = false;
+            m.T = {{0, 1, 2}, {0, 3, 1}, {0, 2, 4}, {2, 3, 4}, {3, 0, 4}, {1, 5, 2}, {2, 5, 3}, {3, 5, 1}}; lens = true; fan = false;
+        } else if (g.coin(0.06)) { lens = false; fan = true;
+            // 'fan': a bipyramid over a ring of N >= 17 nodes (both poles have valence N, as the poles of a latitude-longitude sphere) with a few
+            // valence-3 nodes inserted into triangles next to a pole: collapsing the pole edge that faces such a node must be refused
+            // (the end nodes share three neighbours), whatever the valence of the pole
+            const int N = g.range(17, 40); m = gen::TriMesh(); m.name = "fan" + std::to_string(N);
+            const double h1 = g.uni(0.3, 1.2), h2 = g.uni(0.3, 1.2);
+            m.P.push_back({0, 0, h1}); for (int k = 0; k < N; k++) { double ph = 2 * M_PI * k / N; m.P.push_back({std::cos(ph), std::sin(ph), 0}); } m.P.push_back({0, 0, -h2});
+            for (int k = 0; k < N; k++) { unsigned r0 = 1 + (unsigned)k, r1 = 1 + (unsigned)((k + 1) % N); m.T.push_back({0, r0, r1}); m.T.push_back({(unsigned)N + 1, r1, r0}); }
+            const int ins = g.range(1, 4);
+            for (int k = 0; k < ins; k++) { size_t ti = (size_t)(g.u64() % m.T.size()); auto t = m.T[ti]; std::array<double, 3> x = {0, 0, 0}; for (unsigned v : t) for (int d = 0; d < 3; d++) x[d] += m.P[v][d] / 3;
+                for (int d = 0; d < 3; d++) x[d] *= 1.02; unsigned X = (unsigned)m.P.size(); m.P.push_back(x); m.T[ti] = {t[0], t[1], X}; m.T.push_back({t[1], t[2], X}); m.T.push_back({t[2], t[0], X}); }
+        } else { lens = false; fan = false;
         m = gen::random_shape(g, std::max(20, max_faces / 2));
         if (g.coin(0.5)) gen::jitter(m, g, 0.05);
         }
@@ -176,7 +187,7 @@ static std::string run_history(const Args& a, long i) {
         double cap = thick * 0.7 / 2.0; if (lmax > cap) { lmax = cap; lmin = lmax / ratio; }
         double expected_faces = (double)g0.area * 1.5 * 1.5 / (0.43 * std::pow(0.5 * (lmin + lmax), 2));   // at the largest stretch
         have = expected_faces <= 4.0 * max_faces;
-        if (lens) {   // focused probe: every edge inside the band (the thin body must not be remeshed away), only the swap rule is exercised
+        if (lens || fan) {   // focused probe: every edge inside the band (the thin body must not be remeshed away), only the swap rule is exercised
             double emin = 1e300, emax = 0; for (auto& t : T) { V3 q[3] = {P[t.a], P[t.b], P[t.c]}; for (int k = 0; k < 3; k++) { double l = (double)(q[k] - q[(k + 1) % 3]).norm(); emin = std::min(emin, l); emax = std::max(emax, l); } }
             lmin = 0.5 * emin; lmax = 2.0 * emax; ratio = lmax / lmin; have = true; }
     }
@@ -194,7 +205,7 @@ static std::string run_history(const Args& a, long i) {
     if (a.geti("force_sample", 0) > 0) mon.sample_every = (int)a.geti("force_sample", 0);
     mon.regimeA = g.coin(0.5);
     g_mon = &mon; verif::get().remesh_event = sink;
-    const int npass = lens ? g.range(1, 3) : g.range(5, (int)a.geti("max_passes", 25));
+    const int npass = (lens || fan) ? g.range(1, 3) : g.range(5, (int)a.geti("max_passes", 25));
     double D[3] = {1, 1, 1}; gen::Rot frame = gen::rot_random(g); double twist_state = 0;
     long passes_done = 0, conforming_checked = 0, rebases = 0, direct_ops = 0; bool threw = false; std::string throw_what;
     long faces_max = 0;
@@ -204,13 +215,13 @@ static std::string run_history(const Args& a, long i) {
         // ---- (a) deformation ----------------------------------------------------------------------
         {
             std::vector<V3> Q; std::vector<orc::Tri> TT; gen::extract(*c, Q, TT); orc::Geo gg = orc::geometry(Q, TT); V3 ctr = gg.centroid;
-            double Dn[3]; for (int d = 0; d < 3; d++) Dn[d] = (g.coin(0.3) || lens) ? D[d] : g.uni(0.7, 1.5);
-            double tw = 0; if (g.coin(0.25) && !lens) { tw = (twist_state == 0 ? g.uni(-0.35, 0.35) : -twist_state); }
+            double Dn[3]; for (int d = 0; d < 3; d++) Dn[d] = (g.coin(0.3) || lens || fan) ? D[d] : g.uni(0.7, 1.5);
+            double tw = 0; if (g.coin(0.25) && !lens && !fan) { tw = (twist_state == 0 ? g.uni(-0.35, 0.35) : -twist_state); }
             gen::Rot rr = (mon.regimeA && g.coin(0.4)) ? gen::rot_random(g) : gen::rot_identity();
             double ext = 0.5 * std::sqrt((double)std::max({(gg.hi[0] - gg.lo[0]) * (gg.hi[0] - gg.lo[0]), (gg.hi[1] - gg.lo[1]) * (gg.hi[1] - gg.lo[1]), (gg.hi[2] - gg.lo[2]) * (gg.hi[2] - gg.lo[2])}));
             // shortest incident edge per node for the noise bound
             std::vector<double> minl(Q.size(), 1e300); for (auto& t : TT) { unsigned v[3] = {t.a, t.b, t.c}; for (int k = 0; k < 3; k++) { double l = (double)(Q[v[k]] - Q[v[(k + 1) % 3]]).norm(); minl[v[k]] = std::min(minl[v[k]], l); minl[v[(k + 1) % 3]] = std::min(minl[v[(k + 1) % 3]], l); } }
-            double noise = lens ? g.uni(0, 0.02) : (g.coin(0.3) ? 0.0 : g.uni(0, 0.2));
+            double noise = (lens || fan) ? g.uni(0, 0.02) : (g.coin(0.3) ? 0.0 : g.uni(0, 0.2));
             auto& nl = cell_tester::nodes(*c);
             // regime B emulates the product loop: the force phase refreshes the cached normals, then the integrator moves the
             // nodes, then the next refinement pass runs with normals that are one move stale.
@@ -253,11 +264,16 @@ static std::string run_history(const Args& a, long i) {
         // ---- (b) compaction -------------------------------------------------------------------------
         if (g.coin(0.25)) { try { c->rebase(); rebases++; before_tri.clear(); before_used.clear(); } catch (const std::exception& e) { mon.viol("c01.rebase_threw", e.what()); break; } mon.full_check("rebase", true); }
         // ---- (c) burst of direct operations ---------------------------------------------------------
-        if (g.coin(0.25) && mon.viol_key.empty() && !lens) {
-            int nops = g.range(1, 10); edge_set dummy;
+        if ((g.coin(0.25) || fan) && mon.viol_key.empty() && !lens) {
+            int nops = fan ? g.range(1, 6) : g.range(1, 10); edge_set dummy;
             for (int k = 0; k < nops && mon.viol_key.empty(); k++) {
                 const auto& es = cell_tester::edges(*c); if (es.empty()) break;
                 auto it = es.begin(); std::advance(it, (long)(g.u64() % es.size())); edge e = *it; int what = g.range(0, 2);
+                if (fan) {   // aim at the pole edges: guarded collapse only (the small, flat body is not meant to be remeshed at random)
+                    what = 1;
+                    std::map<unsigned, int> deg; for (const edge& x : es) { deg[x.n1()]++; deg[x.n2()]++; }
+                    std::vector<edge> pe; for (const edge& x : es) if (deg[x.n1()] >= 12 || deg[x.n2()] >= 12) pe.push_back(x);
+                    if (!pe.empty()) { e = pe[(size_t)(g.u64() % pe.size())]; what = 1; } }
                 try {
                     if (what == 0) { dummy.clear(); lmr.split_edge(e, c, dummy); }
                     else if (what == 1) { if (lmr.can_be_merged(e, c)) { dummy.clear(); lmr.merge_edge(e, c, dummy); } }
@@ -324,7 +340,7 @@ static std::string run_history(const Args& a, long i) {
     h = hash_combine(h, (uint64_t)c->get_nb_of_faces()); h = hash_combine(h, (uint64_t)c->get_nb_of_nodes()); cs.sig = h;
     cs.obs.s("shape", m.name).i("faces0", (long)m.T.size()).i("faces_end", (long)c->get_nb_of_faces()).i("faces_max", faces_max).d("scale", scale).d("lmin_over_mean_edge", lmin / (gen::mean_edge(m))).d("lmax_over_lmin", ratio)
         .b("swaps", swaps).b("regimeA", mon.regimeA).i("passes", passes_done).i("splits", mon.n_split).i("merges", mon.n_merge).i("swaps_done", mon.n_swap).i("swaps_refused", mon.n_swap_refused)
-        .i("merges_refused", mon.n_merge_refused).i("rebases", rebases).i("direct_ops", direct_ops).i("invariant_checks", mon.inv_checks).i("conforming_checked", conforming_checked).b("threw", threw).s("throw_what", throw_what.substr(0, 120)).i("sample_every", mon.sample_every);
+        .i("merges_refused", mon.n_merge_refused).i("rebases", rebases).i("direct_ops", direct_ops).i("invariant_checks", mon.inv_checks).i("conforming_checked", conforming_checked).b("threw", threw).s("throw_what", throw_what.substr(0, 120)).i("sample_every", mon.sample_every).b("fan_refused", fan && mon.n_merge_refused > 0);
     return cs.line();
 }
 
@@ -347,6 +363,7 @@ static int cmd_remesh(const Args& a) {
             agg.bin("passes", num("passes")); agg.bin("rebases", num("rebases")); agg.bin("direct_ops", num("direct_ops")); agg.bin("invariant_checks", num("invariant_checks")); agg.bin("conforming_checked", num("conforming_checked"));
             { size_t p = L.find("\"shape\":\""); if (p != std::string::npos) { std::string w = L.substr(p + 9, 24), sl; for (char ch : w) { if (ch == '"') break; if (!std::isdigit((unsigned char)ch)) sl += ch; } agg.bin("shape:" + sl); } }
             if (flag("threw")) { agg.bin("histories_ended_by_exception"); size_t p = L.find("\"throw_what\":\""); if (p != std::string::npos) { std::string w = L.substr(p + 14, 60), sl; for (char ch : w) { if (ch == '"') break; if (std::isalpha((unsigned char)ch)) sl += ch; else if (ch == ' ' && !sl.empty() && sl.back() != '_') sl += '_'; } agg.bin("exception:" + sl.substr(0, 48)); } } if (flag("regimeA")) agg.bin("regimeA_histories"); else agg.bin("regimeB_histories"); if (flag("swaps")) agg.bin("histories_with_swaps_enabled");
+            if (flag("fan_refused")) agg.bin("fan_histories_with_refused_pole_collapse");
             agg.maxi("faces_max", (double)num("faces_max"));
             if (flag("nt")) { agg.nontrivial++; size_t p = L.find("\"sig\":\""); if (p != std::string::npos) agg.sigs[strtoull(L.substr(p + 7, 16).c_str(), nullptr, 16)] = 1; }
             if (viol) { agg.viol_total++; if (agg.viol_total <= (long)agg.max_viol) emit(L); }
